@@ -63,13 +63,18 @@ KF_VALUE = 3
 
 def strategy_instances(tier: str):
     """Every strategy instance of the tier.  `allsites`: the instance is also aimed at each index
-    and each cursor (thorough: every instance; quick: one representative per strategy and remainder
-    strategy -- site selection does not depend on the count / factor); otherwise where=None only."""
+    and each cursor (quick: times=2 and factor=3 under both remainder strategies; thorough: every PEEL
+    and unroll_while instance, and STRICT with times=2, factor=3, factor=k -- site selection does not
+    depend on the count / factor); otherwise where=None only."""
     inst = _instances(tier)
     for spec in inst:
         if spec['name'] in ('elim_iter', 'fuse'):
             continue
-        spec['allsites'] = tier != 'quick' or spec.get('times') == 2 or spec.get('factor') == 3
+        rep = spec.get('times') == 2 or spec.get('factor') == 3
+        if tier == 'quick':
+            spec['allsites'] = rep
+        else:
+            spec['allsites'] = rep or spec.get('remainder', 'PEEL') == 'PEEL' or spec.get('factor') == 'k'
     return inst
 
 
@@ -349,8 +354,9 @@ class Check(BaseCheck):
                 'programs_by_family': fam, 'strategy_instances': len(self.instances),
                 'lengths': '0..9 (programs with a nested loop: 0..6, 8)',
                 'value_patterns': 1 if self.tier == 'quick' else 2,
-                'site_selection': 'None, each index, each cursor' + (' (index/cursor for times=2 and factor=3 only)'
-                                                                     if self.tier == 'quick' else ''),
+                'site_selection': 'None, each index, each cursor' + (
+                    ' (index/cursor for times=2 and factor=3 only)' if self.tier == 'quick' else
+                    ' (index/cursor for every PEEL / unroll_while instance and STRICT times=2, factor=3, k)'),
                 'variable_factor_values': list(self.kvalues), 'unroll_for_times': '1..4', 'unroll_while_times': '1..3',
                 'split_factors': '1..4, k, KF', 'body_sequence_length': '<=2 (core pool), 1 (all)' if
                 self.tier == 'quick' else '<=2 (all), 3 (core pool, main headers)'}
